@@ -564,6 +564,23 @@ func (c *Ctx) poolSharedRule(rule string, pkg *types.Package) {
 			}
 			construct := fmt.Sprintf("%s: pooled object", fname(fn))
 			c.check(!shared, rule, construct, c.ipos(in), "not shared over a channel", "an object that was handed to another goroutine over a channel is returned to a sync.Pool when this function ends: the receiver keeps using it while the next request re-initialises it — a reader past EOF then yields another call's bytes")
+			// memory of the pooled object must not outlive the Put: returning buf.Bytes() (or the object)
+			// from the function that puts it back hands the caller bytes the next user of the pool overwrites
+			escapes := false
+			allInstrs(fn, func(x ssa.Instruction) {
+				rt, ok := x.(*ssa.Return)
+				if !ok {
+					return
+				}
+				for _, res := range rt.Results {
+					if c.dependsOn(blockLocalValue(res), func(v ssa.Value) bool { return v == obj || stripConv(v) == obj }, 0, map[ssa.Value]bool{}) {
+						if _, isBasic := res.Type().Underlying().(*types.Basic); !isBasic && !isErrorType(res.Type()) {
+							escapes = true
+						}
+					}
+				}
+			})
+			c.check(!escapes, rule, construct+" (returned memory)", c.ipos(in), "nothing derived from the pooled object is returned", "memory of an object that is put back into a sync.Pool is returned to the caller (e.g. buf.Bytes() with a deferred Put): the next user of the pool overwrites it while the caller still writes it out — replies of concurrent requests get mixed up or malformed")
 		})
 	}
 }
